@@ -213,6 +213,18 @@ class CrashRunner {
         WriteRec &slot = writes.back();
         slot.idx = (int)writes.size() - 1;
         add_markers_and_write(db, slot, op, i);
+      } else if (n == "emptywrite") {
+        // ldb_write of a batch with no updates: a 12-byte log record that carries no marker and changes no state; it must be
+        // acknowledged and must never stand in the way of a later recovery (added after seed C03e)
+        ldb_batch_t *b = ldb_batch_create();
+        ldb_writeopt_t wo = *ldb_writeopt_default;
+        wo.sync = op.geti("sync", 0) != 0;
+        sched_call_begin();
+        int rc = ldb_write(db, b, &wo);
+        sched_call_end();
+        ldb_batch_destroy(b);
+        if (rc != LDB_OK) VF_FAIL("C01", "write of an empty batch returned rc=%d without any fault", rc);
+        rep->count("op.emptywrite");
       } else if (n == "thread") {
         // a block of consecutive `thread <t> put|del|batch ...` lines runs concurrently (group commit in the trace)
         std::map<int, std::vector<Op>> prog;
